@@ -207,21 +207,69 @@ def resolveChangeTargets (idx : Index) (heads : List Nat) (segs : List Seg) (p :
 
 /-! ### `IdPrefixIndex`: the disambiguation index in front of the repo-wide index -/
 
-/-- `IdIndex::resolve_prefix_to_key` over the keys of the disambiguation set (set-level model of
-the sorted short-key table; the scan order inside the table is not observable): the empty prefix
-is ambiguous; otherwise the inner `collect`: the first matching key, provided every other
-matching entry has the same key -/
-def idIndexResolve (keys : List Id) (p : Id) : Resolution Id :=
-  if p = [] then .ambiguous else
-  match keys.filter (matchesPrefix p) with
+/-- the first `N = 4` bytes of a key (`unwrap_as_short_key`) -/
+def shortKey (k : Id) : Id := k.take 8
+
+/-- `IdIndexBuilder::build`: the entries sorted by short key.  (`sort_unstable_by_key` leaves the
+order of entries with equal short keys open; `Props/C20` shows no answer depends on it.) -/
+def insertByShort (k : Id) : List Id → List Id
+  | [] => [k]
+  | y :: ys => if idLt (shortKey y) (shortKey k) then y :: insertByShort k ys else k :: y :: ys
+
+def idIndexBuild (keys : List Id) : List Id := keys.foldr insertByShort []
+
+/-- `index.partition_point(|(s, _)| s < bound)` on the table sorted by short key -/
+def partitionPoint (index : List Id) (bound : Id) : Nat :=
+  (index.takeWhile fun k => idLt (shortKey k) bound).length
+
+/-- the inner `collect` of `resolve_prefix_with`: the first key, if every other scanned entry has
+the same key -/
+def collect : List Id → Resolution Id
   | [] => .noMatch
   | k :: rest => if rest.all (· == k) then .single k else .ambiguous
 
-/-- `lookup_exact(..).map(shortest_unique_prefix_len)`: at least one digit -/
-def idIndexShortest (keys : List Id) (key : Id) : Option Nat :=
+/-- `IdIndex::resolve_prefix_to_key` on the sorted short-key table -/
+def idIndexResolveT (index : List Id) (p : Id) : Resolution Id :=
+  let minBytes := padEven p
+  if minBytes = [] then .ambiguous
+  else if minBytes.length > 8 then
+    -- the prefix is longer than the short key: take the chunk with that short key, then filter
+    let sb := minBytes.take 8
+    let pos := partitionPoint index sb
+    collect (((index.drop pos).takeWhile fun k => shortKey k = sb).filter (matchesPrefix p))
+  else
+    let pos := partitionPoint index minBytes
+    collect ((index.drop pos).takeWhile (matchesPrefix p))
+
+/-- `lookup_exact(..).map(IdIndexLookup::shortest_unique_prefix_len)`: the left and right
+neighbours of the chunk are compared by *short* key, the entries of the chunk by full key; at
+least one digit -/
+def idIndexShortestT (index : List Id) (key : Id) : Option Nat :=
+  let sk := shortKey key
+  let pos := partitionPoint index sk
+  let chunk := (index.drop pos).takeWhile fun k => shortKey k = sk
+  if chunk.contains key then
+    let left := if pos = 0 then none else index[pos - 1]?
+    let right := index[pos + chunk.length]?
+    let neighborLens := (left.toList ++ right.toList).map fun k => commonLen (shortKey k) sk + 1
+    let currentLens := (chunk.filter (· != key)).map fun k => commonLen k key + 1
+    some ((neighborLens ++ currentLens).foldl max 1)
+  else none
+
+/-- set-level specification of `resolve_prefix_to_key` (what `Props/C20` reasons with): the
+empty prefix is ambiguous, otherwise `collect` on the matching keys -/
+def idIndexResolveSpec (keys : List Id) (p : Id) : Resolution Id :=
+  if p = [] then .ambiguous else collect (keys.filter (matchesPrefix p))
+
+/-- set-level specification of the shortest length in the disambiguation set -/
+def idIndexShortestSpec (keys : List Id) (key : Id) : Option Nat :=
   if keys.contains key then
     some (((keys.filter (· != key)).map fun k => commonLen key k + 1).foldl max 1)
   else none
+
+/-- the disambiguation index of a key list -/
+def idIndexResolve (keys : List Id) (p : Id) : Resolution Id := idIndexResolveT (idIndexBuild keys) p
+def idIndexShortest (keys : List Id) (key : Id) : Option Nat := idIndexShortestT (idIndexBuild keys) key
 
 /-- `IdPrefixIndex::resolve_commit_prefix` -/
 def resolveCommitWithin (dis : Option (List Id)) (tables : List (List Id)) (p : Id) : Resolution Id :=
